@@ -908,6 +908,8 @@ class Module(ABC):
             val: The value to set the parameter to. If it is `jnp.ndarray` then it
                 must be of shape `(len(num_compartments))`.
         """
+        # The tables of a view are a snapshot: bring them up to date with the module.
+        self._update_view()
         if key in self.nodes.columns:
             not_nan = ~self.nodes[key].isna().to_numpy()
             self.base.nodes.loc[self._nodes_in_view[not_nan], key] = val
@@ -933,6 +935,8 @@ class Module(ABC):
                 function does not modify global state.
         """
         # Note: `data_set` does not support arrays for `val`.
+        # The tables of a view are a snapshot: bring them up to date with the module.
+        self._update_view()
         is_node_param = key in self.nodes.columns
         data = self.nodes if is_node_param else self.edges
         viewed_inds = self._nodes_in_view if is_node_param else self._edges_in_view
@@ -1186,6 +1190,8 @@ class Module(ABC):
             self.base.nodes["global_branch_index"].value_counts().to_numpy()
         )
 
+        # The tables of a view are a snapshot: bring them up to date with the module.
+        self._update_view()
         data = self.nodes if key in self.nodes.columns else None
         data = self.edges if key in self.edges.columns else data
 
@@ -1697,6 +1703,11 @@ class Module(ABC):
         if isinstance(self, View):
             scope = self._scope
             current_view = self._current_view
+            controlled_by = {
+                name: getattr(self, name)["controlled_by_param"]
+                for name in ["nodes", "edges"]
+                if "controlled_by_param" in getattr(self, name).columns
+            }
             # copy dict of new View. For some reason doing self = View(self)
             # did not work.
             self.__dict__ = View(
@@ -1706,6 +1717,9 @@ class Module(ABC):
             # retain the scope and current_view of the previous view
             self._scope = scope
             self._current_view = current_view
+            # ...and how its parameters are shared (`controlled_by_param`).
+            for name, column in controlled_by.items():
+                getattr(self, name)["controlled_by_param"] = column
 
     def delete_recordings(self):
         """Removes all recordings from the module."""
